@@ -17,7 +17,7 @@ import copy
 import random
 from typing import Any, Dict, List, Optional
 
-TEXTS = ["tell me about apple", "fig and apple", "what is kiwi", "pear", "apple", "nothing here",
+TEXTS = ["tell me about apple", "fig and apple", "what is kiwi", "pear", "apple", "nothing here", "tiny",
          # the same request up to case / outer whitespace / inner whitespace / unicode normal form: whatever a key
          # normalises away must not matter to the stage it fronts (the embedding is case- and form-sensitive)
          "Tell Me About Apple", "TELL ME ABOUT APPLE", "  tell me about apple ", "tell me  about\tapple",
@@ -102,7 +102,56 @@ WORLDZ = {"graph": {"nodes": copy.deepcopy(WORLDX["graph"]["nodes"]),
 WORLDW = {"graph": {"nodes": list(reversed(copy.deepcopy(WORLDX["graph"]["nodes"]))),
                     "edges": copy.deepcopy(WORLDX["graph"]["edges"])},
           "episodes": copy.deepcopy(WORLD0["episodes"])}
-ALL_WORLDS = [WORLD0, WORLD1, WORLD2, WORLDX, WORLDY, WORLDZ, WORLDW]
+# WORLDE: WORLD0 + an almost-dead link whose contribution sits at T1's EPS = 1e-6 cut-off
+# (1.7e-6 * mult 1.0 * decay 0.6 = 1.02e-6 >= EPS: reached; 1.6e-6 -> 0.96e-6 < EPS: not reached)
+WORLDE = {"graph": {"nodes": copy.deepcopy(WORLD0["graph"]["nodes"]) + [["n:tiny", "tiny"], ["n:dust", "dust"]],
+                    "edges": copy.deepcopy(WORLD0["graph"]["edges"]) + [["e:t", "n:tiny", "n:dust", 0.0000017, "supports"]]},
+          "episodes": copy.deepcopy(WORLD0["episodes"])}
+ALL_WORLDS = [WORLD0, WORLD1, WORLD2, WORLDX, WORLDY, WORLDZ, WORLDW, WORLDE]
+W_EPS = 7
+
+
+def _edge_delta(eid, src, dst, w, rel="supports", with_id=True):
+    d = {"op": "upsert_edge", "src": src, "dst": dst, "weight": w, "rel": rel}
+    if with_id:
+        d["id"] = eid
+    return d
+
+
+# applies through the REAL apply_changes -> InMemoryGraphStore.apply_deltas, every magnitude class of a weight move
+_T = ("e:t", "n:tiny", "n:dust")
+_A = ("e1", "n:apple", "n:pear")
+APPLY_EDITS = [
+    {"op": "apply", "dim": "apply_edge", "deltas": [_edge_delta(*_T, 0.0000016)]},              # just below the cut-off
+    {"op": "apply", "dim": "apply_edge", "deltas": [_edge_delta(*_T, 0.0000017)]},              # back at the cut-off
+    {"op": "apply", "dim": "apply_edge", "deltas": [_edge_delta(*_T, 1e-6 / 0.6)]},             # contribution == EPS (+- 1 ulp)
+    {"op": "apply", "dim": "apply_edge", "deltas": [_edge_delta(*_T, 0.00000166666)]},
+    {"op": "apply", "dim": "apply_edge", "deltas": [_edge_delta(*_T, 0.0000004)]},              # below 1e-6 (rounds to 0)
+    {"op": "apply", "dim": "apply_edge", "deltas": [_edge_delta(*_T, 0.0)]},                    # exactly 0
+    {"op": "apply", "dim": "apply_edge", "deltas": [_edge_delta(*_T, -0.0000017)]},             # sign flip at the cut-off
+    {"op": "apply", "dim": "apply_edge", "deltas": [_edge_delta(*_T, 0.5)]},                    # large
+    {"op": "apply", "dim": "apply_edge", "deltas": [_edge_delta(*_A, 0.9000004)]},              # sub-1e-6 move of a live edge
+    {"op": "apply", "dim": "apply_edge", "deltas": [_edge_delta(*_A, 0.0000011)]},              # live edge to the cut-off
+    {"op": "apply", "dim": "apply_edge", "deltas": [_edge_delta(*_A, 0.0)]},
+    {"op": "apply", "dim": "apply_edge", "deltas": [_edge_delta(*_A, -0.9)]},                   # sign flip, large
+    {"op": "apply", "dim": "apply_edge", "deltas": [_edge_delta(*_A, 0.9)]},                    # idempotent re-write (WORLD0 value)
+    {"op": "apply", "dim": "apply_edge", "deltas": [_edge_delta("", "n:apple", "n:kiwi", 0.8, with_id=False)]},   # new edge, derived id
+    {"op": "apply", "dim": "apply_edge", "deltas": [_edge_delta(*_A, 0.9, rel="contradicts")]},
+    {"op": "apply", "dim": "apply_node", "deltas": [{"op": "upsert_node", "id": "n:new", "label": "apple"}]},     # a new seed
+    {"op": "apply", "dim": "apply_node", "deltas": [{"op": "upsert_node", "id": "n:pear", "label": "ignored"}]},  # existing: kept
+    {"op": "apply", "dim": "apply_edge", "deltas": [_edge_delta(*_T, 0.0000016), _edge_delta(*_A, 0.9)]},         # mixed batch
+]
+# re-adding an EXISTING episode id with changed text / vector / owner / ts / importance, and with the same content
+_EP1 = {"id": "ep1", "text": "apple pie with pear", "owner": "A", "ts": "2025-08-30T00:00:00Z"}
+EP_READDS = [
+    {"op": "episode", "dim": "memory_readd", "ep": dict(_EP1, text="kiwi fig jam")},
+    {"op": "episode", "dim": "memory_readd", "ep": dict(_EP1, owner="B")},
+    {"op": "episode", "dim": "memory_readd", "ep": dict(_EP1, ts="2025-06-01T00:00:00Z")},
+    {"op": "episode", "dim": "memory_readd", "ep": dict(_EP1, aux={"importance": 1.0})},
+    {"op": "episode", "dim": "memory_readd", "ep": dict(_EP1, vec_text="something else entirely")},
+    {"op": "episode", "dim": "memory_readd", "ep": dict(_EP1)},
+    {"op": "episode", "dim": "memory_readd", "ep": {"id": "ep2", "text": "fig jam", "owner": "A", "ts": "2025-08-29T00:00:00Z"}},  # re-owned: B -> A
+]
 BASE_CFG = {"t2": {"sim_threshold": -1.0, "tiers": ["exact_semantic"], "exact_recent_days": 30, "owner_scope": "agent",
                    "ranking": RANK0}}
 
@@ -193,9 +242,13 @@ def dim_class(cache: str, dim: str) -> str:
             return "t1_labels"           # anything that changes what T1 reaches (the query = text + T1 labels)
         if dim in T2_CFG:
             return "config"
-        if dim in ("node_label", "node_add"):
+        if dim in ("node_label", "node_add", "apply_node"):
             return "node_label"
-    if dim == "node_add":
+        if dim == "apply_edge":
+            return "t1_labels"
+        if dim == "memory_readd":
+            return "memory_add"
+    if dim in ("node_add", "apply_node"):
         return "node_label"
     return dim
 
@@ -277,7 +330,7 @@ def _dims_for_mode(mode: str) -> List[str]:
 def gen_history(rng: random.Random, i: int) -> dict:
     from harness.lib.c05_hist import MODES
     mode = MODES[i % len(MODES)] if rng.random() < 0.8 else rng.choice(MODES)
-    nworlds = rng.choice([2, 3, 7, 7]) if rng.random() < (0.35 if mode.startswith("t1") else 0.12) else 1
+    nworlds = rng.choice([2, 3, 7, 7, 8, 8]) if rng.random() < (0.35 if mode.startswith("t1") else 0.12) else 1
     case = {"mode": mode, "cap": rng.choice([1, 2, 512, 512]), "ttl": rng.choice([0, 5, 300, 300]),
             "nworlds": nworlds, "ops": []}
     ops = case["ops"]
@@ -287,12 +340,15 @@ def gen_history(rng: random.Random, i: int) -> dict:
         ops.append({"op": "set", "dim": "kill", "val": True})
     elif rng.random() < 0.15:
         ops.append({"op": "set", "dim": "kill", "val": True})
-    if rng.random() < 0.5:
+    if nworlds == 8 and rng.random() < 0.6:
+        ops.append({"op": "set", "dim": "text", "val": "tiny"})
+    elif rng.random() < 0.5:
         ops.append({"op": "set", "dim": "text", "val": rng.choice(TEXTS)})
     nturn = rng.choice([2, 3, 3, 4, 5])
     last_sets: List[dict] = []
     for t in range(nturn):
-        ops.append({"op": "turn", "w": (rng.choice([3, 4, 5, 6]) if nworlds == 7 and rng.random() < 0.75 else rng.randrange(nworlds))})
+        ops.append({"op": "turn", "w": (rng.choice([3, 4, 5, 6]) if nworlds == 7 and rng.random() < 0.75 else
+                                      W_EPS if nworlds == 8 and rng.random() < 0.8 else rng.randrange(nworlds))})
         if t == nturn - 1:
             break
         for _ in range(rng.choice([0, 1, 1, 1, 2])):
@@ -308,6 +364,8 @@ def gen_history(rng: random.Random, i: int) -> dict:
                 o = rng.choice(last_sets)
                 vals = CFG_DIMS[o["dim"]][1] if o["dim"] in CFG_DIMS else SPECIAL_DIMS[o["dim"]]
                 ops.append({"op": "set", "dim": o["dim"], "val": copy.deepcopy(vals[0])})
+            elif r < 0.68 or (nworlds == 8 and r < 0.8):
+                ops.append(dict(copy.deepcopy(rng.choice(APPLY_EDITS)), w=(W_EPS if nworlds == 8 else rng.randrange(nworlds))))
             elif r < 0.75:
                 ops.append(dict(copy.deepcopy(rng.choice(EDGE_EDITS)), w=rng.randrange(nworlds)))
             elif r < 0.83 and not mode.startswith("t1"):
@@ -315,13 +373,13 @@ def gen_history(rng: random.Random, i: int) -> dict:
             elif r < 0.83:
                 ops.append(dict(copy.deepcopy(rng.choice(NODE_EDITS[1:])), w=rng.randrange(nworlds)))
             elif r < 0.9 and not mode.startswith("t1"):
-                ops.append(dict(copy.deepcopy(rng.choice(EP_ADDS)), w=rng.randrange(nworlds)))
+                ops.append(dict(copy.deepcopy(rng.choice(EP_ADDS + EP_READDS)), w=rng.randrange(nworlds)))
             else:
                 ops.append({"op": "clock", "dim": "clock", "dt": rng.choice([0, 1, 6, 400])})
     return case
 
 
-def sweep_cases() -> List[dict]:
+def sweep_cases(full: bool = True) -> List[dict]:
     """2-step histories: turn, change ONE dimension, turn (same state) — per cache configuration."""
     out = []
 
@@ -355,13 +413,35 @@ def sweep_cases() -> List[dict]:
                  [{"op": "set", "dim": "text", "val": "fig and apple"},
                   {"op": "set", "dim": "perf_frontier", "val": copy.deepcopy(CFG_DIMS["perf_frontier"][1][1])}]]
     for mode in ("t1_lru", "t1_bytes"):
-        for pre in order_pre:
+        for pre in (order_pre if mode == "t1_lru" else order_pre[:1] + order_pre[2:3]):
             for a, b in ((3, 4), (4, 3), (3, 5), (5, 3)):
                 out.append(hist(mode, [], pre=pre, nworlds=7, first_w=a, second_w=b))
         out.append(hist(mode, [], nworlds=7, first_w=3, second_w=6))          # node order only
         out.append(hist(mode, [], nworlds=7, first_w=6, second_w=3))
     for a, b in ((3, 5), (5, 3)):
         out.append(hist("all_lru", [], pre=order_pre[0], nworlds=7, first_w=a, second_w=b))
+    # applies through the real apply_changes / InMemoryGraphStore.apply_deltas (every magnitude class), on the state
+    # that has an edge at T1's EPS cut-off; seeded at the edge's source ("tiny") and at "apple"
+    for mode, edits, texts in (("t1_lru", APPLY_EDITS, ("tiny", "tell me about apple")),
+                               ("t1_bytes", APPLY_EDITS[:8], ("tiny",)),
+                               ("t2_lru", APPLY_EDITS[:5], ("tiny",)),
+                               ("all_lru", APPLY_EDITS[:5], ("tiny",))):
+        for a in edits:
+            for txt in texts:
+                out.append(hist(mode, [dict(copy.deepcopy(a), w=W_EPS)], pre=[{"op": "set", "dim": "text", "val": txt}],
+                                nworlds=8, first_w=W_EPS, second_w=W_EPS))
+    # two applies in a row (1.7e-6 -> 1.6e-6 -> 1.7e-6) and an apply on ANOTHER state with the same graph id
+    for mode in ("t1_lru", "t1_bytes"):
+        out.append(hist(mode, [dict(copy.deepcopy(APPLY_EDITS[0]), w=W_EPS), dict(copy.deepcopy(APPLY_EDITS[1]), w=W_EPS)],
+                        pre=[{"op": "set", "dim": "text", "val": "tiny"}], nworlds=8, first_w=W_EPS, second_w=W_EPS))
+    # re-adding an existing episode id (changed text / owner / ts / importance / vector, same content)
+    for mode, eps, agents in (("t2_lru", EP_READDS, ("A", "B")), ("t2_bytes", EP_READDS, ("A",)),
+                              ("all_lru", EP_READDS[:3], ("A",)), ("all_bytes", EP_READDS[:2], ("A",))):
+        for e in eps:
+            for ag in agents:
+                out.append(hist(mode, [copy.deepcopy(e)], pre=[{"op": "set", "dim": "agent", "val": ag}]))
+    for e in EP_READDS[:2]:
+        out.append(hist("turn", [copy.deepcopy(e)], pre=[{"op": "set", "dim": "kill", "val": True}]))
     t2_dims = sorted(T2_CFG) + ["agent", "now", "slice_t2_k", "text"]
     for mode in ("t2_lru", "t2_bytes"):
         for d in t2_dims + ["decay_rate", "slice_t1_pops"]:
@@ -375,7 +455,8 @@ def sweep_cases() -> List[dict]:
         out.append(hist(mode, [{"op": "set", "dim": "now", "val": NOWS[1]}],
                         pre=[{"op": "set", "dim": "ranking", "val": RANK1}]))
     kill = [{"op": "set", "dim": "kill", "val": True}]
-    for mode in ("turn", "all_lru"):
+    # (quick tier: the all-caches-on mirror of the turn-level sweep only re-finds the recorded turn-level findings)
+    for mode in (("turn", "all_lru") if full else ("turn",)):
         for d in t2_dims + ["decay_rate", "slice_t1_pops"]:
             for ch in changes_for(d):
                 out.append(hist(mode, ch, pre=kill))
@@ -384,7 +465,7 @@ def sweep_cases() -> List[dict]:
         out.append(hist(mode, [], pre=kill, nworlds=2, second_w=1))
         out.append(hist(mode, [{"op": "set", "dim": "kill", "val": False}], pre=kill))
     # text variants against each other (not only against the default text), version frozen by the kill switch
-    for mode in ("t1_lru", "t2_lru", "t2_bytes", "turn", "all_lru", "all_bytes"):
+    for mode in ("t1_lru", "t2_lru", "turn", "all_lru"):
         for a, b in TEXT_VARIANT_PAIRS:
             for x, y in ((a, b), (b, a)):
                 out.append(hist(mode, [{"op": "set", "dim": "text", "val": y}],
